@@ -58,8 +58,11 @@ fn gamma(a: Decimal) -> Option<Decimal> {
         for (k, coefficient) in coefficients.iter().enumerate() {
             s = s.checked_add(coefficient.checked_div(z + Decimal::new(k as i64, 0))?)?;
         }
-        let compute_pow = ((z + Decimal::new(10400511, 6)) / e).checked_powd(z - half)?;
+        // the power term alone may leave the Decimal range although the product does not (25.5!): multiply it in as two square roots
+        let compute_pow =
+            ((z + Decimal::new(10400511, 6)) / e).checked_powd((z - half) / Decimal::new(2, 0))?;
         s.checked_mul(Decimal::new(1860382734205265717, 18))?
+            .checked_mul(compute_pow)?
             .checked_mul(compute_pow)
     };
     if a < half {
